@@ -250,7 +250,7 @@ def ob_form(et, name, scheme="mass"):
     mesh = _geometry(et)
     g = mesh.groupElem
     dim = g.dim
-    A = np.array([[2.0, 0.3, 0.1], [0.3, 1.5, -0.2], [0.1, -0.2, 1.1]])[:dim, :dim]
+    A = np.array([[2.0, 0.3, 0.1], [-0.5, 1.5, -0.2], [0.7, 0.4, 1.1]])[:dim, :dim]          # NOT symmetric: grad u . A . grad v differs from its transpose
     forms = _forms(dim, 1.2, 0.8, A, lambda x, y, z: 1.0 + 0.5 * x + 0.25 * y * y, scheme)
     dof_n, form, ref = forms[name]
     if dof_n > g.inDim:
